@@ -87,3 +87,51 @@ func H_C17_round_changes_leave_the_chain_status_alone() {
 	verifAssert(c17cSnapshot(cs.status.Validators) == before, "chain-status-validators-unchanged-by-round-changes")
 	verifAssert(c17cSnapshot(cs.Validators) == c17cSnapshot(ref), "round-proposer-is-the-status-set-rotated-by-the-rounds-walked")
 }
+
+func stub_c17c_hexstring(b []byte) string { return string(b) }
+
+// Who proposed the last block, and who failed to in round 0, is derived twice: by the proposer that
+// builds the evidence into its block (getLastFaultValsInfo) and by every validator that checks it
+// (VerifyFaultValEvidence). Both must rotate the SAME set (the validators of the last height, as the
+// status records them) by the SAME number of rounds: for every such set, every commit round and also
+// when the current set differs from the last one, the evidence an honest proposer builds is accepted,
+// and evidence naming another proposer is not.
+//verif:stub (github.com/lianxiangcloud/linkchain/libs/common.HexBytes).String => stub_c17c_hexstring
+//verif:opt unwind=16 budget_s=900 split=8
+func H_C17_builder_and_verifier_of_proposer_evidence_agree() {
+	mk := func() *types.ValidatorSet {
+		vals := make([]*types.Validator, 3)
+		for i := range vals {
+			pk := crypto.PubKeyEd25519{byte(i + 1), 0x55}
+			p := int64(verifNondetUint8())
+			verifAssume(p >= 1)
+			verifAssume(p <= 4)
+			vals[i] = &types.Validator{Address: pk.Address(), PubKey: pk, VotingPower: p}
+		}
+		return types.NewValidatorSet(vals)
+	}
+	last := mk()
+	cur := last.Copy()
+	cur.IncrementAccum(1) // what updateStatus derives when the set does not change ...
+	if verifNondetBool() {
+		cur = mk() // ... or a fresh set after a validator change
+	}
+	round := verifCase(4)
+	commit := &types.Commit{Precommits: []*types.Vote{{Height: 4, Round: round, Type: types.VoteTypePrecommit}}}
+	cs := &ConsensusState{}
+	cs.Logger = log.NewNopLogger()
+	cs.Height = 5
+	cs.LastValidators, cs.Validators = last, cur
+	cs.status = NewStatus{ChainID: "chain-A", LastBlockHeight: 4, Validators: cur, LastValidators: last}
+	ev := cs.getLastFaultValsInfo(commit)
+	fvi, ok := ev.(*types.FaultValidatorsEvidence)
+	verifAssert(ok && fvi != nil, "an-honest-proposer-builds-the-evidence")
+	verifReach("evidence-built")
+	verifAssert(VerifyFaultValEvidence(cs.status, commit, fvi) == nil, "honest-proposer-evidence-is-accepted")
+	// evidence naming another validator as the proposer is refused
+	forged := *fvi
+	other := crypto.PubKeyEd25519{byte(1 + verifCase(3)), 0x55}
+	verifAssume(other != fvi.Proposer.(crypto.PubKeyEd25519))
+	forged.Proposer = other
+	verifAssert(VerifyFaultValEvidence(cs.status, commit, &forged) != nil, "evidence-naming-another-proposer-is-refused")
+}
